@@ -307,3 +307,85 @@ pub fn program_to_auto_data(p: &Program) -> Option<Sexp> {
     let leaves = list(vec![atom(&format!("scalar{}", scalar_code(Scalar::Uint(UintTy::U32)))), atom(&format!("scalar{}", scalar_code(Scalar::Bool)))]);
     Some(tagged("auto-data", vec![list(adts), leaves, list(vec![]), list(impls), list(provided), list(autos), list(cos)]))
 }
+
+/// C06 (fragment F1): impl clauses plus the environment clauses of every trait (see Props/C06.lean):
+/// `tr(x̄) :- env:tr(x̄)` and `env:w(x̄) :- env:tr(x̄)` for each `Implemented` where-clause of the trait.
+pub fn program_to_horn_env(p: &Program) -> Option<Sexp> {
+    let mut clauses = vec![];
+    for (_, d) in &p.impl_data {
+        if d.polarity != Polarity::Positive || d.impl_type != ImplType::Local || !d.associated_ty_value_ids.is_empty() {
+            return None;
+        }
+        if d.binders.binders.iter(I).any(|k| !matches!(k, VariableKind::Ty(TyVariableKind::General))) {
+            return None;
+        }
+        let b = d.binders.skip_binders();
+        let env = [Bind::Vars];
+        let head = atom_of_trait_ref(&b.trait_ref, &env)?;
+        let body: Option<Vec<Sexp>> = b.where_clauses.iter().map(|w| atom_of_wc(w, &env)).collect();
+        clauses.push(tagged("clause", vec![head, list(body?)]));
+    }
+    let envify = |a: &Sexp| -> Sexp {
+        match a {
+            Sexp::List(xs) => {
+                let mut v = xs.clone();
+                v[1] = atom(&format!("env:{}", xs[1].as_atom().unwrap()));
+                Sexp::List(v)
+            }
+            x => x.clone(),
+        }
+    };
+    for (id, t) in &p.trait_data {
+        let f = &t.flags;
+        if f.auto || f.marker || f.fundamental || f.coinductive || t.well_known.is_some() || !t.associated_ty_ids.is_empty() {
+            return None;
+        }
+        if t.binders.binders.iter(I).any(|k| !matches!(k, VariableKind::Ty(TyVariableKind::General))) {
+            return None;
+        }
+        let n = t.binders.len(I);
+        let mut head = vec![atom("atom"), atom(&format!("tr{}", id.0.index))];
+        head.extend((0..n).map(|i| tagged("var", vec![nat(i)])));
+        let head = Sexp::List(head);
+        clauses.push(tagged("clause", vec![head.clone(), list(vec![envify(&head)])]));
+        let env = [Bind::Vars];
+        for w in &t.binders.skip_binders().where_clauses {
+            let wa = atom_of_wc(w, &env)?;
+            clauses.push(tagged("clause", vec![envify(&wa), list(vec![envify(&head)])]));
+        }
+    }
+    for (_, a) in &p.adt_data {
+        if !a.binders.skip_binders().where_clauses.is_empty() {
+            return None;
+        }
+    }
+    if !p.custom_clauses.is_empty() || !p.opaque_ty_data.is_empty() || !p.associated_ty_data.is_empty() {
+        return None;
+    }
+    Some(tagged("program", vec![list(clauses), list(vec![])]))
+}
+
+/// rename hypothesis atoms `trN` under `implies` to `env:trN`
+pub fn env_hyps(g: &Sexp) -> Sexp {
+    match g.tagged() {
+        Some(("implies", [hs, sub])) => {
+            let hs2: Vec<Sexp> = hs
+                .as_list()
+                .unwrap()
+                .iter()
+                .map(|a| match a {
+                    Sexp::List(xs) => {
+                        let mut v = xs.clone();
+                        v[1] = atom(&format!("env:{}", xs[1].as_atom().unwrap()));
+                        Sexp::List(v)
+                    }
+                    x => x.clone(),
+                })
+                .collect();
+            tagged("implies", vec![list(hs2), env_hyps(sub)])
+        }
+        Some(("and", [a, b])) => tagged("and", vec![env_hyps(a), env_hyps(b)]),
+        Some(("not", [a])) => tagged("not", vec![env_hyps(a)]),
+        _ => g.clone(),
+    }
+}
